@@ -218,6 +218,21 @@ theorem step_protected (cfg : Cfg) (hc : cfg.maskedAccessThrows = true) (s : Sta
         let m := iaddVector_mutates hr; ⟨m.1 hc, m.2.1⟩)
     · exact ⟨rfl, hp, Nat.le_refl _⟩
     · exact ⟨rfl, hp, Nat.le_refl _⟩
+  | allocWide w cells =>
+    simp only [step]
+    exact withNew_protected hb hp (r := .ok (allocWide s.heap w cells)) (fun x hx => by
+      simp at hx; subst hx; exact ⟨cells, rfl, rfl⟩)
+  | comp v k =>
+    simp only [step]
+    split
+    · rename_i a ha
+      split
+      · rename_i c hcv
+        have hi := compView_inherits hcv
+        refine ⟨rfl, push_protected hp (fun hcb => ?_), Nat.le_refl _⟩
+        rw [hi.2.1]; exact hp a (view_mem ha) (hi.1 ▸ hcb)
+      · exact ⟨rfl, hp, Nat.le_refl _⟩
+    · exact ⟨rfl, hp, Nat.le_refl _⟩
 
 /-- **Read-only invariant over arbitrary programs** (repaired accessor).  If every Python object
     viewing buffer `b` is read-only, then after ANY sequence of statements of ANY length the buffer
@@ -376,14 +391,16 @@ theorem writable_monotone (cfg : Cfg) (s : State) (op : Op) (i : Nat) (a : View)
     · exact same
   case iaddScalar v x => split <;> first | exact same | exact wh _
   case iaddVector v d => split <;> first | exact same | exact wh _
+  case allocWide w cells => exact keep _ _
+  case comp v k => split <;> first | exact same | (split <;> first | exact same | exact keep _ _)
 
 /-- the object a creating statement derives its result from -/
 def Op.source : Op → Option Nat
-  | .getslice v _ | .getmask v _ | .copy v | .convert v | .ifelseScalar v _ _ | .ifelseVector v _ _ => some v
+  | .getslice v _ | .getmask v _ | .copy v | .convert v | .ifelseScalar v _ _ | .ifelseVector v _ _ | .comp v _ => some v
   | _ => none
 
 /-- **A view derived from a read-only object cannot be used to modify it** (the property's wording, without the
-    `Protected` hypothesis on the OTHER objects): a masked reference or handle copy of a read-only object is read-only;
+    `Protected` hypothesis on the OTHER objects): a masked reference, handle copy or COMPONENT ARRAY (`.x` …) of a read-only object is read-only;
     a slice / converted / `ifelse` result is a copy in a fresh buffer (so writable, but on other data). -/
 theorem derived_view_readonly (cfg : Cfg) (s : State) (op : Op) (v : Nat) (a : View) (hsrc : Op.source op = some v)
     (ha : s.env[v]? = some a) (hw : a.writable = false) (hb : a.buf < s.heap.length) (id : Nat)
@@ -432,6 +449,15 @@ theorem derived_view_readonly (cfg : Cfg) (s : State) (op : Op) (v : Nat) (a : V
     simp only [Op.source, Option.some.injEq] at hsrc; subst hsrc
     simp only [step, hview] at hr ⊢
     exact ps a rfl rfl hr
+  | comp v' k =>
+    simp only [Op.source, Option.some.injEq] at hsrc; subst hsrc
+    simp only [step, hview] at hr ⊢
+    cases hg : compView cfg.componentKeepsMask a k with
+    | error e => simp [hg] at hr
+    | ok c =>
+      simp only [hg] at hr ⊢
+      have hi := compView_inherits hg
+      exact ps c hi.1 hi.2.1 hr
   | convert v' =>
     simp only [Op.source, Option.some.injEq] at hsrc; subst hsrc
     simp only [step, hview] at hr ⊢
@@ -474,25 +500,35 @@ Density is needed, not only well-formedness: the packed branch of `a[mask] = dat
 and a SHIFTED alias of `a` used as the mask could grow the number of selected elements under the loop — such views cannot
 be built by the 16 statements (slices are copies), which is what the invariant records. -/
 
-/-- **One statement, any statement (current code)**: the invariant is preserved and the result is not the model's
-    out-of-buffer outcome.  `OpOK` only says that an allocation request fits `Py_ssize_t`. -/
-theorem step_preserves_WF (s : State) (hs : StateOK s) (op : Op) (hop : OpOK op) :
+/-- **One statement, any statement (current code)** — the 16 statements on arrays AND the two on vector arrays
+    (`V3iArray(...)`, `.x`/`.y`/…): the invariant is preserved and the result is not the model's out-of-buffer outcome.
+    `OpOK s op`: an allocation request fits `Py_ssize_t`, a vector array is filled with whole elements, and a component is
+    taken of a vector array (`off = 0`, `k < stride`) — what Python's classes enforce. -/
+theorem step_preserves_WF (s : State) (hs : StateOK s) (op : Op) (hop : OpOK s op) :
     StateOK (step Cfg.current s op).1 ∧ (step Cfg.current s op).2 ≠ .error .oob := step_inv s hs op hop
 
-/-- **No program, of any length, touches a cell outside a buffer**: starting from the empty interpreter state every
-    reachable state satisfies the invariant and no statement's outcome is `Err.oob` (clause 11). -/
-theorem no_oob_current (ops : List Op) (hops : ∀ op ∈ ops, OpOK op) :
+/-- **No program, of any length, touches a cell outside a buffer** — programs over dense arrays, vector arrays, their
+    component arrays and masked references of all of these: starting from the empty interpreter state every reachable
+    state satisfies the invariant and no statement's outcome is `Err.oob` (clause 11). -/
+theorem no_oob_current (ops : List Op) (hops : OpsOK State.empty ops) :
     StateOK (exec Cfg.current State.empty ops) ∧ ∀ r ∈ (run Cfg.current State.empty ops).2, r ≠ .error .oob :=
   run_inv ops State.empty StateOK.empty hops
 
-/-- non-vacuity / discrimination: the witness programs satisfy `OpOK`, and the SAME statement is false for the code as
-    first examined (`convert_masked_oob_asWritten`: the converting constructor reached `Err.oob`) -/
-example : (∀ op ∈ witnessConvert, OpOK op) ∧
+/-- non-vacuity / discrimination: the converting-constructor witness satisfies the side conditions, and the SAME statement
+    is false for the code as first examined (`convert_masked_oob_asWritten`) -/
+example : OpsOK State.empty witnessConvert ∧
     (run Cfg.asWritten State.empty witnessConvert).2.getLast? = some (.error .oob) ∧
-    (∀ r ∈ (run Cfg.current State.empty witnessConvert).2, r ≠ .error .oob) :=
-  ⟨by intro op hop; simp [witnessConvert] at hop; rcases hop with h | h | h | h | h <;> subst h <;> simp [OpOK] <;> decide,
-   by decide, (no_oob_current witnessConvert (by
-     intro op hop; simp [witnessConvert] at hop; rcases hop with h | h | h | h | h <;> subst h <;> simp [OpOK] <;> decide)).2⟩
+    (∀ r ∈ (run Cfg.current State.empty witnessConvert).2, r ≠ .error .oob) := by
+  have hok : OpsOK State.empty witnessConvert := by
+    simp only [witnessConvert, OpsOK, OpOK, and_true]
+    decide
+  exact ⟨hok, by decide, (no_oob_current witnessConvert hok).2⟩
+
+/-- **a program that takes `.x` of a masked reference of a vector array and writes through it** is inside the theorem:
+    `a = V3iArray(4 elements); v = a[IntArray([0,1,0,1])]; c = v.x; c[1] = 99; c += …` -/
+example : OpsOK State.empty (witnessComponentOps ++ [.alloc [5, 6], .setVectorMask 3 1 4, .iaddVector 3 4]) := by
+  simp only [witnessComponentOps, List.cons_append, List.nil_append, OpsOK, OpOK, and_true, true_and]
+  decide
 
 /-- `a.ifelse(choice, x)` with a scalar alternative: `[a[i] if choice[i] else x]` in a fresh array -/
 theorem ifelse_scalar_refines {h : Heap} {v choice : View} (w : v.WF (shape h)) (wc : choice.WF (shape h))
@@ -670,8 +706,7 @@ theorem setitem_scalar_mask_on_masked_refines {h : Heap} {v mask : View} {idx : 
 /-- non-vacuity of the in-place theorems: the masked reference of the witness set-up (made writable) is well formed -/
 example : ∃ s : State, s = exec Cfg.current State.empty [.alloc [10, 11, 12], .alloc [1, 0, 1], .getmask 0 1] ∧
     StateOK s ∧ (s.env[2]?).map (·.indices) = some (some [0, 2]) :=
-  ⟨_, rfl, (no_oob_current _ (by intro op hop; simp at hop; rcases hop with h | h | h <;> subst h <;> simp [OpOK] <;> decide)).1,
-   by decide⟩
+  ⟨_, rfl, (no_oob_current _ (by simp only [OpsOK, OpOK, and_true]; decide)).1, by decide⟩
 
 /-! ### the mask specification, characterised independently of its definition -/
 
@@ -830,6 +865,15 @@ theorem error_leaves_state (cfg : Cfg) (s : State) (op : Op) (e : Err) (h : (ste
       cases hm : s.view d with
       | error e' => simp
       | ok mk => simp only [hv, hm] at h ⊢; exact wh _ h
+  case allocWide w cells => simp [State.push] at h
+  case comp v k =>
+    cases hv : s.view v with
+    | error e' => simp
+    | ok a =>
+      simp only [hv] at h ⊢
+      cases hc : compView cfg.componentKeepsMask a k with
+      | error e' => simp
+      | ok c => simp [hc, State.push] at h
 
 /-! ## Converting constructor -/
 
@@ -863,6 +907,12 @@ theorem component_protected {km : Bool} {s : State} {b v k : Nat} {a c : View} (
     (ha : s.env[v]? = some a) (hc : compView km a k = .ok c) : Protected (s.push s.heap c).1 b := by
   have hi := compView_inherits hc
   exact push_protected hp (fun hcb => by rw [hi.2.1]; exact hp a (List.mem_of_getElem? ha) (hi.1 ▸ hcb))
+
+/-- the same through the state machine: with the getters as first examined the program `v = a[[0,1,0,1]]; c = v.x; c[1]`
+    reads element 2 (value 2), with the current ones element 3 -/
+theorem component_witness_run :
+    (run Cfg.asWritten State.empty witnessComponentOps).2[4]? = some (.ok (.int 2)) ∧
+    (run Cfg.current State.empty witnessComponentOps).2[4]? = some (.ok (.int 3)) := by decide
 
 /-- **as first examined the mask is dropped**: `a[[0,1,0,1]].x` of the 4-element witness reads elements 1,2 (not 1,3)
     and `.x[1] = 99` lands in `a[2]`; intended: reads 1,3 and writes `a[3]` -/
